@@ -133,9 +133,19 @@ def pattern_whole_reference(reference):
     """Returns a pattern which matches occurrences of a reference string that are not part of a longer reference
 
     A reference ($producer[/$path]:$method) is not self-delimiting: `A:ref` is a suffix of `BA:ref`, of `stage0.A:ref`
-    and of `0#A:ref`, and `A:copy` is a prefix of `A:copyout`.
+    and of `0#A:ref`, `input/f.txt:ref` is a suffix of `data/input/f.txt:ref`, and `A:copy` is a prefix of `A:copyout`.
     """
-    return re.compile(r'(?<![\w.#-])' + re.escape(reference) + r'(?![\w])')
+    return re.compile(r'(?<![\w.#/-])' + re.escape(reference) + r'(?![\w])')
+
+
+def pattern_whole_reference_any(references):
+    # type: (Iterable[str]) -> "re.Pattern"
+    """Returns a pattern which matches a whole occurrence of any of the @references (see pattern_whole_reference()).
+
+    Longer references are tried first so that the pattern never settles for a reference which is a prefix of another.
+    """
+    alternatives = '|'.join(re.escape(reference) for reference in sorted(references, key=len, reverse=True))
+    return re.compile(r'(?<![\w.#/-])(?:' + alternatives + r')(?![\w])')
 
 
 def rewrite_reference(reference, binding_values, import_to_stage, owner_component_stage):
@@ -1518,7 +1528,7 @@ class FlowIR(object):
                     update_refs.append(extra_ref)
                 for ref in update_refs:
                     # VV: only match whole references (e.g. `A:ref` must not match inside `BA:ref`)
-                    expression = re.compile(r"(?<![\w.#-])%s(?![\w])((?:/[\w.*]+)+,*)?" % re.escape(ref))
+                    expression = re.compile(r"(?<![\w.#/-])%s(?![\w])((?:/[\w.*]+)+,*)?" % re.escape(ref))
                     orig_string = string
                     m = expression.search(string)
                     if m is not None:
